@@ -14,6 +14,7 @@ INVARIANT PathsAgree
 INVARIANT Limit
 INVARIANT Larger
 INVARIANT ReflTable
+INVARIANT MixedBatch
 PROPERTY Monotone
 PROPERTY RotationInvariant
 CHECK_DEADLOCK FALSE
